@@ -22,6 +22,9 @@ type c17Service struct {
 	calls       *[]string
 }
 
+func (s c17Service) RegisterResponseCallback(string, serviceexported.ResponseCallback) error { return nil }
+func (s c17Service) RegisterStateCallback(string, serviceexported.StateCallback) error       { return nil }
+func (s c17Service) RegisterModuleService(string, *serviceexported.ModuleService) error      { return nil }
 func (s c17Service) GetRequestContext(sdk.Context, tmbytes.HexBytes) (serviceexported.RequestContext, bool) {
 	return *s.rc, s.exists
 }
@@ -56,7 +59,7 @@ func c17Env(history int, latest uint64) (*vEnv, Keeper, c17Service, types.Feed) 
 	rc := &serviceexported.RequestContext{State: serviceexported.RUNNING, BatchCounter: uint64(history) + 1}
 	calls := []string{}
 	sk := c17Service{rc: rc, exists: true, calls: &calls}
-	k := Keeper{cdc: e.cdc, storeKey: e.key, sk: sk}
+	k := NewKeeper(e.cdc, e.key, sk)
 	feed := types.Feed{FeedName: "pair", AggregateFunc: []string{"max", "min", "avg"}[verifChoice("aggregate", 3)], ValueJsonPath: "rate",
 		LatestHistory: latest, RequestContextID: tmbytes.HexBytes{1}.String(), Creator: vAddr(1).String()}
 	k.SetFeed(e.ctx, feed)
